@@ -553,6 +553,8 @@ class G(object):
             return self.locals_stmt(ind)
         if r.random() < 0.15:
             return self.host_stmt(ctx, ind)
+        if not deep and ctx.depth <= 2 and r.random() < 0.05:
+            return self.import_family(ctx, ind)
         if x < 0.66:
             kinds = list(STMT_KINDS)
             if deep:
@@ -874,7 +876,22 @@ class G(object):
             else:
                 self.emit(ind, 'import %s' % a)
         elif kind == 'import-as':
-            self.emit(ind, 'import %s as %s' % (r.choice(['pm', 'pk.sub', 'os.path', 'pk']), a))
+            m = r.choice(['pm', 'pk.sub', 'os.path', 'pk'])
+            x = r.random()
+            if x < 0.75:
+                self.emit(ind, 'import %s as %s' % (m, a))
+            elif x < 0.85:
+                self.emit(ind, 'import %s \\' % m)
+                self.emit(ind, '        as %s' % a)
+            elif x < 0.93:
+                self.emit(ind, 'import %s as \\' % m)
+                self.emit(ind, '    %s' % a)
+            else:
+                b = self.tid(ctx, kind, (a,))
+                ids.append(b)
+                self.emit(ind, 'import %s as %s, pk.sub2 \\' % (m, a))
+                self.emit(ind, '  as \\')
+                self.emit(ind, '      %s' % b)
         elif kind == 'import-dotted':
             self.emit(ind, 'import %s.%s' % (a, r.choice(['sub', 'sub.deep', 'path'])))
         elif kind == 'from':
@@ -892,8 +909,106 @@ class G(object):
             else:
                 self.emit(ind, 'from %s import %s' % (mod, a))
         else:
-            self.emit(ind, 'from %s import %s as %s' % (r.choice(['pm', 'pk.sub', '.']), r.choice(['sa', 'sb', 'z']), a))
+            m, mem = r.choice(['pm', 'pk.sub', '.']), r.choice(['sa', 'sb', 'z'])
+            x = r.random()
+            if x < 0.7:
+                self.emit(ind, 'from %s import %s as %s' % (m, mem, a))
+            elif x < 0.8:
+                self.emit(ind, 'from %s import (%s as' % (m, mem))
+                self.emit(ind, '    %s)' % a)
+            elif x < 0.88:
+                self.emit(ind, 'from %s import (%s' % (m, mem))
+                self.emit(ind, '        as %s,' % a)
+                self.emit(ind, ')')
+            elif x < 0.94:
+                self.emit(ind, 'from %s import %s as \\' % (m, mem))
+                self.emit(ind, '  %s' % a)
+            else:
+                b = self.tid(ctx, kind, (a,))
+                ids.append(b)
+                self.emit(ind, 'from %s import (  # %s' % (m, a))
+                self.emit(ind, '    %s as %s, sb' % (mem, a))
+                self.emit(ind, '    as')
+                self.emit(ind, '        %s)' % b)
         self.reads(ctx, ind, ids)
+
+    def import_family(self, ctx, ind):
+        """one package imported several ways: a dotted import whose top-level name is read through the full path,
+        through the top-level name only, or not at all, next to plain / aliased / from / dotted-aliased imports of
+        the same package and of its sub-packages, in this scope and in a nested class body / function"""
+        r = self.r
+        self.budget -= 3
+        mode = r.choice(['full', 'full', 'top', 'none'])
+        if r.random() < 0.5:
+            P = r.choice(['pk', 'pk', 'logging', 'os', 'xml'])
+            if mode == 'none' and self.decided.get(P):
+                mode = 'top'
+        else:
+            self.counter += 1
+            P = 'n%d' % self.counter
+        self.decided[P] = self.decided.get(P, False) or mode != 'none'
+        subs = ['sub', 'sub2', 'config', 'handlers', 'path', 'dom']
+        s1 = r.choice(subs)
+        forms = ['dotted', 'from', 'from-sub-as', 'as', 'dotted-as', 'from-deep', 'from-deep-as', 'from-multi',
+                 'dotted2', 'plain']
+        chosen = ['dotted'] + [r.choice(forms) for _ in range(r.choice([1, 2, 3, 4]))]
+        r.shuffle(chosen)
+        places = {'here': [], 'class': [], 'def': []}
+        for f in chosen:
+            places[r.choice(['here', 'here', 'here', 'class', 'def'])].append(f)
+
+        def one(c, i, f):
+            q = lambda: self.tid(c, 'from-as')
+            if f == 'dotted':
+                self.emit(i, 'import %s.%s' % (P, s1))
+            elif f == 'dotted2':
+                self.emit(i, 'import %s.%s' % (P, r.choice(subs)))
+            elif f == 'plain':
+                self.emit(i, 'import %s' % P)
+            elif f == 'from':
+                self.emit(i, 'from %s import %s' % (P, q()))
+            elif f == 'from-sub-as':
+                self.emit(i, 'from %s import %s as %s' % (P, r.choice(subs), q()))
+            elif f == 'as':
+                self.emit(i, 'import %s as %s' % (P, q()))
+            elif f == 'dotted-as':
+                self.emit(i, 'import %s.%s as %s' % (P, r.choice(subs), q()))
+            elif f == 'from-deep':
+                self.emit(i, 'from %s.%s import %s' % (P, r.choice(subs), q()))
+            elif f == 'from-deep-as':
+                self.emit(i, 'from %s.%s import z as %s' % (P, r.choice(subs), q()))
+            else:
+                self.emit(i, 'from %s import (%s,' % (P, q()))
+                self.emit(i, '    %s as %s)' % (r.choice(subs), q()))
+            if f in ('dotted', 'dotted2', 'plain') and P not in c.gl:
+                c.bound.add(P)
+
+        def read(i):
+            if mode == 'full':
+                self.emit(i, 'use(%s.%s.z)' % (P, s1))
+            elif mode == 'top':
+                self.emit(i, r.choice(['use(%s)', 'use(%s.z)']) % P)
+        read_at = r.choice(['here', 'here', 'def', 'end'])
+        for f in places['here']:
+            one(ctx, ind, f)
+        if read_at == 'here':
+            read(ind)
+        if places['class']:
+            self.emit(ind, 'class %s:' % self.tid(ctx, 'class'))
+            inner = Ctx('class', ctx)
+            for f in places['class']:
+                one(inner, ind + 1, f)
+            if r.random() < 0.3:
+                read(ind + 1)
+        if places['def'] or read_at == 'def':
+            inner = Ctx('function', ctx)
+            self.emit(ind, 'def %s():' % self.tid(ctx, 'def'))
+            for f in places['def']:
+                one(inner, ind + 1, f)
+            if read_at == 'def' or not places['def']:
+                read(ind + 1) if mode != 'none' else self.emit(ind + 1, 'pass')
+        if read_at == 'end':
+            read(ind)
 
     def declare(self, inner, ind):
         """global / nonlocal declarations at the start of a function or class body"""
